@@ -171,6 +171,7 @@ func (c *c9ctx) anchors() bool {
 func (c *c9ctx) mkSev(hyp map[string]types.Type) func() *sev {
 	return func() *sev {
 		s := newSev(c.p)
+		s.opaque = valueCodecOpaque
 		s.encHook, s.decHook = c.enc, c.dec
 		for k, v := range hyp {
 			s.hypType[k] = v
@@ -624,6 +625,7 @@ func (c *c9ctx) envelope() {
 	}
 	mk := func() *sev {
 		s := newSev(p)
+		s.opaque = valueCodecOpaque
 		s.pairs = map[*types.Func]*types.Func{c.dec: c.enc}
 		for _, d := range c.scDecs {
 			s.pairs[d] = c.scEnc
